@@ -14,6 +14,8 @@
 EXTENDS Naturals, Sequences, FiniteSets, TLC
 
 CONSTANTS MaxVersion, MaxHits, MaxPolls,
+          ForgetsOnResume,    \* deviation: an agent OBJECT that is started again keeps reporting the hash it holds
+                              \* but its handler, emptied by the shutdown, is never given that configuration again
           SharedConfigStore   \* deviation (pre-fix ConfigService): every agent of the process shares ONE tracepoint
                               \* configuration store - a second agent starts with the first one's hash
 
@@ -85,7 +87,15 @@ Restart == /\ phase = "stopped"
            /\ installed' = 0 /\ toApply' = {}
            /\ UNCHANGED <<svc, pollOpen, fired, received, nhits, npolls, late>>
 
-Next == Start \/ Restart \/ SvcChange \/ PollReq \/ PollResp \/ Apply \/ Hit \/ Deliver \/ ShutdownBegin \/ ShutdownEnd
+(* the application starts the SAME agent object again (Deep.shutdown(); Deep.start()): its configuration store still *)
+(* holds the last configuration and reports its hash - so the service will answer 'no change' - and the handler,  *)
+(* which the shutdown emptied, has to be handed that configuration again                                          *)
+Resume == /\ phase = "stopped"
+          /\ phase' = "running"
+          /\ toApply' = IF hash # 0 /\ ~ForgetsOnResume THEN {hash} ELSE {}
+          /\ UNCHANGED <<svc, hash, pollOpen, installed, fired, received, nhits, npolls, late>>
+
+Next == Start \/ Restart \/ Resume \/ SvcChange \/ PollReq \/ PollResp \/ Apply \/ Hit \/ Deliver \/ ShutdownBegin \/ ShutdownEnd
         \/ (phase = "stopped" /\ UNCHANGED vars)
 
 Spec == Init /\ [][Next]_vars
